@@ -297,6 +297,23 @@ Definition cf_anchor (sqref : text) : option pos :=
     end
   end.
 
+(* displace_cf_ranges, one entry: [if let Some(anchor) = cf_sqref_anchor(&old_range)] — an entry
+   whose first corner does not parse is skipped altogether (neither range nor rule rewritten) *)
+Definition cf_entry (d : disp) (sheet : Z) (sqref : text) : text :=
+  match cf_anchor sqref with
+  | Some _ => cf_sqref d sheet sqref
+  | None => sqref
+  end.
+
+(* every structural edit calls [displace_cf_ranges(sheet, &disp)] for the edited sheet only: the
+   entries of the other sheets are not even re-printed *)
+Definition cf_on_sheet (d : disp) (sheet : Z) (sqref : text) : text :=
+  match d with
+  | DRow s _ _ | DCol s _ _ | DRowMove s _ _ | DColMove s _ _ =>
+    if s =? sheet then cf_entry d sheet sqref else sqref
+  | DNone => sqref
+  end.
+
 (* ---- the range as a formula would hold it --------------------------------------------------- *)
 (* [=SUM(A3:A6)] typed in cell q: both corners relative *)
 Definition rel_range (sheet : Z) (q p1 p2 : pos) : arange :=
